@@ -1,7 +1,7 @@
 (* Glue between the verified VM and the OCaml driver: building code/const/state from lists.
    Nothing here is proved about; it only instantiates VM.run. *)
 From Coq Require Import ZArith List Bool FMapPositive.
-From HidV Require Import Machine Halts VM.
+From HidV Require Import Machine Halts VM Monitor.
 Import ListNotations.
 Open Scope Z_scope.
 
@@ -23,3 +23,7 @@ Definition run_program (w : Z) (st cn : list Z) (code : list instr) (watch : lis
   run w (mkcode code) (mem_of_list cn) mon (mkwatch watch) fuel (mk 0 (mem_of_list st)).
 
 Definition mon_none (s : state) : bool := true.
+
+(* the C04 entitlement monitor instantiated for a concrete program *)
+Definition mon_entitled (w : Z) (cn : list Z) (code : list instr) (stack_start stack_end lib_start : Z) : state -> bool :=
+  Monitor.mon w (mkcode code) (mem_of_list cn) (mklayout stack_start stack_end lib_start 0 w).
